@@ -231,7 +231,7 @@ void on_access(const void *addr, size_t size, bool write) {
     }
     maybe_switch();
 }
-void libc_state(int which, bool write) { on_access(g_libc_state[which], 8, write); }
+void libc_state(int which, bool write) { if (G.active && self && self->in_op) { if (write) G.stats.libc_state_writes++; else G.stats.libc_state_reads++; } on_access(g_libc_state[which], 8, write); }
 void clear_range(const void *p, size_t n) {
     if (!G.active || !G.shadow) return;
     uintptr_t a = (uintptr_t)p & ~(uintptr_t)7, e = (uintptr_t)p + n;
